@@ -454,18 +454,27 @@ def _arg_ext(a, axis, better):
     return out
 
 
-def _argsort(a, axis=-1):
-    p = _objarr(a)
-    if p.ndim != 1:
-        raise Unsupported("argsort ndim>1 in mode B")
+def _argsort1(p):
     idx = list(range(len(p)))
-    # stable insertion sort; comparisons fork
+    # stable insertion sort; comparisons on symbolic values fork the path
     for i in range(1, len(idx)):
         j = i
         while j > 0 and (p[idx[j]] < p[idx[j - 1]]):
             idx[j], idx[j - 1] = idx[j - 1], idx[j]
             j -= 1
-    return numpy.array(idx, dtype=int)
+    return idx
+
+
+def _argsort(a, axis=-1):
+    p = _objarr(a)
+    if p.ndim == 1:
+        return numpy.array(_argsort1(p), dtype=int)
+    ax = axis if axis >= 0 else axis + p.ndim
+    moved = numpy.moveaxis(p, ax, -1)
+    out = numpy.empty(moved.shape, dtype=int)
+    for idx in numpy.ndindex(*moved.shape[:-1]):
+        out[idx] = _argsort1(moved[idx])
+    return numpy.moveaxis(out, -1, ax)
 
 
 def b_mean(a, axis=None, keepdims=False, **kw):
